@@ -1103,6 +1103,7 @@ func TestC16(t *testing.T) {
 		"other messages, feature disabled or dialect without id 66; a 37 s (thorough 68 s) run in a child process of its own with senders first seen 0, 2 and 5 s after the node started: no repeat earlier than 30 s after the previous batch. distinct = configurations")
 	rep.RuleAdd("Also: a fleet of 1500 (thorough 3000) distinct ArduPilot senders on two channels inside one 30 s period: seven requests and one event each. Stream requests over a TCP server endpoint (one of three peers leaves) and a UDP broadcast endpoint (senders with the node own ids).")
 	rep.RuleAdd("Rounds 12-15: stream requests over TCP server and UDP broadcast endpoints, a node loop kept busy, 40 000 + 30 000 known senders on two links with 20 000 more around the 30 s housekeeping, early senders heard again.")
+	rep.RuleAdd("Rounds 16-17: the long run's application is busy for 4 s just when a sender is first seen on a link of its own.")
 	rep.Assume("spacing is judged on the median and only after a re-run at a 5x larger period also fails (load robustness)")
 	seed := shardSeed()
 	shard, nsh := shardInfo()
